@@ -526,9 +526,10 @@ def _ws_send(eng, st, recv, args, kwargs, line):
     advance_clock(eng, s2, None)
     s3 = s2.copy()
     _ws_log(eng, s2, True, _pv(args[0]))
+    s4 = s3.copy()
     yield s2, VNONE
     yield s3, R('OSError', line)
-    yield s3.copy(), R('AnyException', line)
+    yield s4, R('AnyException', line)
 
 
 def _ws_close(eng, st, recv, args, kwargs, line):
